@@ -274,7 +274,7 @@ def opTree (j : Json) : Except String Json := do
     let prep : Json := match contractTreePrep net tree with
       | .error e => jErr e
       | .ok (t, perm, am) => Json.mkObj [("nodes", treeJson t), ("perm", ofNats perm), ("axes_map", ofNats am),
-          ("nodeOK", .arr ((treeOKList net t).map Json.bool).toArray), ("rootOK", .bool (rootOK net t am))]
+          ("nodeOK", .arr ((treeOKList net t).map Json.bool).toArray), ("rootOK", .bool (rootOKStrong net t am))]
     let permuted : Json := match applyPermutes tree ps with
       | .error e => jErr e
       | .ok t => Json.mkObj [("nodes", treeJson t), ("nodeOK", .arr ((treeOKList net t).map Json.bool).toArray)]
@@ -303,7 +303,7 @@ def opValue (j : Json) : Except String Json := do
     let treeJ : Json := match contractTree net data s with
       | .error e => jErr e
       | .ok (r, am, t) => Json.mkObj [("raw", dtJson r), ("axes_map", ofNats am), ("full", exJson dtJson (toFullTensor r am)),
-          ("certified", .bool ((treeOKList net t).all id && rootOK net t am))]
+          ("certified", .bool ((treeOKList net t).all id && rootOKStrong net t am))]
     out := out ++ [("tree", treeJ)]
     -- the raw built tree, re-ordered by `permute_axes` calls; leaf data transposed by the caller accordingly
     let ps ← parsePermutes j
